@@ -197,6 +197,12 @@ func namesForParam(parts sortref.SplitKey, operations map[string]operations.OpRe
 				baseNames = append(baseNames, []string{v.ID, "params", "body"})
 			}
 		}
+
+		if len(baseNames) == 0 {
+			// no operation under this path item to name the schema after: use the path itself
+			startIndex = 4
+			baseNames = append(baseNames, []string{swag.ToGoName(parts[1]), "params", "body"})
+		}
 	}
 
 	return baseNames, startIndex
